@@ -61,6 +61,15 @@ def finish(h):
         if same_f != same_o or same_o != (h.pool[i].root is h.pool[j].root):
             h.notes.append('pool[%d] and pool[%d]: same function=%s, ==%s, same root=%s'
                            % (i, j, same_f, same_o, h.pool[i].root is h.pool[j].root))
+        # the nodes themselves: `==` / `!=` of two BDD nodes (documented: "isomorph") must coincide with identity, as
+        # canonicity says, for roots and for their children alike
+        ra, rb = h.pool[i].root, h.pool[j].root
+        for x, y in ((ra, rb), (ra, ra), (getattr(ra, 'low', ra), getattr(rb, 'low', rb)), (getattr(ra, 'high', ra), getattr(ra, 'high', ra))):
+            e1 = B.attempt(lambda: (x == y, x != y))
+            if e1 != ((x is y), (x is not y)):
+                h.notes.append('node-level == / != of two diagrams gives %r, identity says %r (pool[%d], pool[%d])'
+                               % (e1, ((x is y), (x is not y)), i, j))
+                break
     for i in live:
         if not B.ordered_reduced(h.pool[i].root, h.ordering):
             h.notes.append('pool[%d] is not ordered/reduced w.r.t. its own ordering' % i)
